@@ -145,7 +145,7 @@ PROPS = {
             "serde_roundtrip": "s.wf → deserialize (serJ s) = some s   (tree level: externally tagged enum, maps as objects, sets as sequences re-inserted on read)",
             "display_inj": "identKeys a → identKeys b → display a = display b → a = b   (character level; Display texts form a prefix code)",
         },
-        "rule": "every shape of the small-scope and depth-2 universes + random shapes to depth 4 (+ objects whose keys need JSON escaping): Display text, serde_json::to_string text (compared byte for byte with the model's rendering), round trip through text and through serde_json::Value, determinism (serialised twice, via Value, Display twice); among shapes with identifier-like keys no two print the same text. Non-trivial = container shape. Third session: every shape also sits beside its optional twin inside a OneOf; every cmp carries the oracle 'Equal exactly for equal shapes'. Every run also uses the source dictionary (string and integer literals of the library's non-test source as member names / values / texts / collection names and as sizes n-1, n, n+1) and repeats the whole operation list in reverse order in fresh processes, with env-var-like literals set, reporting answers that differ (hidden state).",
+        "rule": "every shape of the small-scope and depth-2 universes + random shapes to depth 4 (+ objects whose keys need JSON escaping): Display text, serde_json::to_string text (compared byte for byte with the model's rendering), round trip through text and through serde_json::Value, determinism (serialised twice, via Value, Display twice); among shapes with identifier-like keys no two print the same text. Non-trivial = container shape. Third session: every shape also sits beside its optional twin inside a OneOf; every cmp carries the oracle 'Equal exactly for equal shapes'. Every run also uses the source dictionary (string and integer literals of the library's non-test source as member names / values / texts / collection names and as sizes n-1, n, n+1) and repeats the whole operation list in reverse order in fresh processes, with env-var-like literals set, reporting answers that differ (hidden state). Also: one object of 300 000 (thorough 600 000) members with pairwise different shapes whose Display must be composed of the members' Display texts (a birthday-sized case for anything keyed by a hash).",
         "assumptions": ["serde_json's text layer (escaping, parsing) and serde's derive representation are trusted; the model's rendering is compared with the real output byte for byte",
                         "Display of non-ASCII member names consults Unicode tables (char::is_alphanumeric): outside the modelled fragment, skipped in the comparison; injectivity is claimed for [A-Za-z0-9_-]+ keys as the property states"],
         "level_text": "serde_roundtrip (for every well-formed shape, reading back the serialised tree yields the shape) and display_inj (for identifier-like member names the Display text determines the shape; proved at character level by showing Display texts form a prefix code) are Lean theorems over all shapes. The model's Display and JSON text are compared with the real output on every run; round trip, determinism and injectivity are re-checked on the real code.",
